@@ -627,4 +627,22 @@ def leafStatement (payload : Json) : Except Err Query := unmarshalQuery payload
 /-- `stmtQuery.UnmarshalJSON(req.Payload)` in `processMetadataSuggest` / `processMetadataSearch` -/
 def leafMetadata (payload : Json) : Except Err Metadata := unmarshalMetadata payload
 
+/-! ## queryStmtParser.build: where `TimeRange` comes from (sql/query_stmt_parser.go)
+
+The parser is not modelled; this is only the last step of `build()`, which decides whether the
+statement depends on the wall clock. `startTime`/`endTime` are the bounds found in the text
+(0 = the text gives none). -/
+
+/-- (assigned, enclosing conditions, value), tied to the source by `Generated.C17.buildTimeRange` -/
+def buildTimeRangeTable : List (String × String × String) :=
+  [("now", "", "commontimeutil.Now()"),
+   ("query.TimeRange", "", "timeutil.TimeRange{Start: q.startTime, End: q.endTime}"),
+   ("query.TimeRange.Start", "query.TimeRange.Start <= 0", "now - commontimeutil.OneHour"),
+   ("query.TimeRange.End", "query.TimeRange.End <= 0", "now")]
+
+/-- the defaulting rules of `build()` -/
+def buildTimeRange (startTime endTime now : Int) : TimeRange :=
+  { start := if startTime ≤ 0 then now - oneHour else startTime,
+    stop := if endTime ≤ 0 then now else endTime }
+
 end LinVerif.Stmt
